@@ -16,6 +16,7 @@ import Mahotas.Proofs.C18Resize
 import Mahotas.Proofs.C18Interp45
 import Mahotas.Proofs.C18Border
 import Mahotas.Proofs.C18Shape
+import Mahotas.Proofs.C18Array
 import Mathlib.Data.Rat.Floor
 import Mahotas.Proofs.Modes
 
@@ -1221,3 +1222,134 @@ example : castToInt (fun z : ℚ => ⌊z⌋) (dtU 8) (5 / 2) = some 2 ∧ castTo
   · simp only [castToInt, t2]; decide
   · simp only [castToInt, t3]; decide
   · simp only [castToInt, t4]; decide
+
+/-- **C18 (the prefilter the driver runs is the separable prefilter of the theorems).** `splineFilterP`, `filterAxisP`,
+`filterLineP` (`Model/C18.lean`) are the array loop of `interpolate.spline_filter` / `spline_filter1d`, polymorphic in
+the scalar type; the driver's `splineFilter order` **is** `splineFilterP (filterLineP (poleWeight (poles order))
+(poles order) (iniCode cutLen pow))` at `Float` for every order > 1 (last conjunct, by unfolding). Over any field, for
+every weight `w`, list of poles `ps`, shape, rank and every initialisation rule that reads only the line (`IniLocal`;
+the code's rule `iniCode cut pw` — truncated sum below the cut, closed form otherwise — is local whatever `cut` and `pw`
+are): the result has the input's shape and at **every** position inside the array it holds
+`prefilterNd (lineFilterL w ps ini)` of the input samples — axis 0 first, then axis 1, …, every line replaced by
+`line·w` run through the causal/anti-causal recursions of every pole (`onePole`), axes of length ≤ 1 left alone. So the
+hypothesis `hdata` of the interpolation theorems is what the driver's own prefilter establishes. -/
+theorem C18_spline_filter_is_prefilterNd {K : Type} [Field K] [LinearOrder K] [IsStrictOrderedRing K]
+    (w : K) (ps : List K) (im : Img K) :
+    (∀ ini : K → Nat → (Nat → K) → K, IniLocal ini →
+      (splineFilterP (filterLineP w ps ini) im).shape = im.shape ∧
+      ∀ p, inside im.shape p = true →
+        (splineFilterP (filterLineP w ps ini) im).getD p 0
+          = prefilterNd (lineFilterL w ps ini) im.shape (fun q => im.getD q 0) p) ∧
+    (∀ (cut : K → Int) (pw : K → Nat → K), IniLocal (iniCode cut pw)) ∧
+    (∀ (F : Array K → Array K) (axis : Nat) (p : List Int), inside im.shape p = true →
+      (filterAxisP F im axis).shape = im.shape ∧
+      (filterAxisP F im axis).getD p 0
+        = if im.shape.getD axis 1 ≤ 1 then im.getD p 0
+          else (F (lineOf im axis p (im.shape.getD axis 1))).getD (p.getD axis 0).toNat 0) :=
+  ⟨fun ini hini => splineFilterP_eq_prefilterNd w ps ini hini im, fun cut pw => iniCode_local cut pw,
+    fun F axis p hin => ⟨filterAxisP_shape F im axis, by
+      rw [filterAxisP_getD F im axis p hin]
+      unfold axisFn flOf
+      by_cases hl : im.shape.getD axis 1 ≤ 1
+      · simp only [hl, if_true]; rw [set_getD_self im.shape p axis hin]
+      · simp only [hl, if_false, lineOf, Nat.cast_zero]⟩⟩
+
+/-- non-vacuity: over ℚ, one (non-root) pole `1/2`, weight 2, initial value `line[0]` (a local rule): the array loop
+on the `2 × 1` image `[[1],[2]]` filters the first axis (`7/2` at `(0,0)`) and leaves the axis of length 1 alone -/
+example : (splineFilterP (filterLineP (2 : ℚ) [1 / 2] (fun _ _ s => s 0)) { shape := [2, 1], data := #[1, 2] }).getD
+    [0, 0] 0 = prefilterNd (lineFilterL (2 : ℚ) [1 / 2] (fun _ _ s => s 0)) [2, 1]
+      (fun q => ({ shape := [2, 1], data := #[1, 2] } : Img ℚ).getD q 0) [0, 0] ∧
+    IniLocal (fun (_ : ℚ) (_ : Nat) (s : Nat → ℚ) => s 0) := by
+  have hloc : IniLocal (fun (_ : ℚ) (_ : Nat) (s : Nat → ℚ) => s 0) := fun z len s s' hlen h => h 0 (by omega)
+  exact ⟨(splineFilterP_eq_prefilterNd (2 : ℚ) [1 / 2] _ hloc { shape := [2, 1], data := #[1, 2] }).2 [0, 0] rfl, hloc⟩
+
+/-- **C18 (the interpolation property of what the driver computes, orders 2–5, any rank, any mode, sources anywhere).**
+The chain closed: let `coeffs = splineFilterP (filterLineP w ps (iniCode cut pw)) im` — the array computation the
+driver's `spline_filter` runs (`C18_spline_filter_is_prefilterNd`), with exact poles and their weight (order 2:
+`ps = [z₁]`, `z₁² + 6z₁ + 1 = 0`, `w = 8`; order 3: `z₁² + 4z₁ + 1 = 0`, `w = 6`; order 4: `ps = [z₁, z₂]`,
+`λ₁+λ₂ = 76`, `λ₁λ₂ = 228`, `w = 384`; order 5: `26`, `64`, `120`), on lines where the code uses its closed-form
+initialisation (`cut z ≥ len` for every pole and axis, `pw z n = zⁿ`; axes of at least 2 resp. 4 samples). Then at
+every output position `p` of `zoom_shift` on `coeffs` (any shifts / zoom factors) whose mapped coordinates are an
+integer vector `js`, the result is the **input sample** `im[js']` at the position the border rule of the mode assigns to
+`js` (`js' = js` inside the array), or `cval` when the mode flags it: zero shift and unit zoom return the input,
+integer shifts are exact translations with the border rule in vacated pixels, corners go to corners — for the composite
+`spline_filter` + `zoom_shift` as the driver runs it. Not covered: approximate floating-point poles / `pow`, the
+truncated initial sum on long lines (`C18_prefilter_truncation_bound`). -/
+theorem C18_interpolation_property_driver {K : Type} [Field K] [LinearOrder K] [IsStrictOrderedRing K]
+    {fl : K → Int} (h : IsFloor fl) (m : Mode) (cval : K) (order : Nat) (z1 z2 l1 l2 w : K) (ps : List K)
+    (hord : (order = 2 ∧ ps = [z1] ∧ l1 = 6 ∧ w = 8) ∨ (order = 3 ∧ ps = [z1] ∧ l1 = 4 ∧ w = 6) ∨
+      (order = 4 ∧ ps = [z1, z2] ∧ l1 + l2 = 76 ∧ l1 * l2 = 228 ∧ w = 384) ∨
+      (order = 5 ∧ ps = [z1, z2] ∧ l1 + l2 = 26 ∧ l1 * l2 = 64 ∧ w = 120))
+    (h1 : z1 * z1 + l1 * z1 + 1 = 0) (h2 : z2 * z2 + l2 * z2 + 1 = 0)
+    (hz1 : z1 * z1 - 1 ≠ 0) (hz2 : z2 * z2 - 1 ≠ 0)
+    (cut : K → Int) (pw : K → Nat → K) (im : Img K)
+    (hshape : ∀ len ∈ im.shape, (if order ≤ 3 then 2 else 4) ≤ len)
+    (hcut : ∀ len ∈ im.shape, ∀ z ∈ ps, ¬ cut z < (len : Int))
+    (hpw : ∀ len ∈ im.shape, ∀ z ∈ ps, pw z (len - 1) = z ^ (len - 1))
+    (hP : ∀ len ∈ im.shape, ∀ z ∈ ps, 1 - z ^ (len - 1) * z ^ (len - 1) ≠ 0)
+    (shifts zooms : List (Option K)) (p js : List Int) (hl : js.length = im.shape.length)
+    (hc : coordsOf im.shape p shifts zooms = js.map fun (j : Int) => (j : K)) :
+    pixel fl order m cval (splineFilterP (filterLineP w ps (iniCode cut pw)) im) shifts zooms p
+      = match specPos m im.shape js with
+        | some js' => im.getD js' 0
+        | none => cval := by
+  obtain ⟨hs, hg⟩ := splineFilterP_eq_prefilterNd w ps (iniCode cut pw) (iniCode_local cut pw) im
+  have hz0 : ∀ (z l : K), z * z + l * z + 1 = 0 → z ≠ 0 := by
+    rintro z l hz rfl
+    simp at hz
+  rcases hord with ⟨rfl, rfl, rfl, rfl⟩ | ⟨rfl, rfl, rfl, rfl⟩ | ⟨rfl, rfl, hsum, hprod, rfl⟩ |
+    ⟨rfl, rfl, hsum, hprod, rfl⟩
+  · have := C18_interpolation_property_border h m cval 2 6 z1 (Or.inl ⟨rfl, rfl⟩) h1 hz1 (iniCode cut pw z1)
+      (splineFilterP (filterLineP 8 [z1] (iniCode cut pw)) im)
+      (by rw [hs]; intro len hl'; simpa using hshape len hl')
+      (by rw [hs]; intro len hl' s
+          exact iniCode_mirrorInit cut pw z1 (hz0 z1 6 h1) len (by simpa using hshape len hl')
+            (hcut len hl' z1 (by simp)) (hpw len hl' z1 (by simp)) (hP len hl' z1 (by simp)) s)
+      (fun q => im.getD q 0)
+      (by rw [hs]; intro pos hpos; rw [hg pos hpos, lineFilterL_single]; norm_num)
+      shifts zooms p js (by rw [hs]; exact hl) (by rw [hs]; exact hc)
+    rw [hs] at this
+    exact this
+  · have := C18_interpolation_property_border h m cval 3 4 z1 (Or.inr ⟨rfl, rfl⟩) h1 hz1 (iniCode cut pw z1)
+      (splineFilterP (filterLineP 6 [z1] (iniCode cut pw)) im)
+      (by rw [hs]; intro len hl'; simpa using hshape len hl')
+      (by rw [hs]; intro len hl' s
+          exact iniCode_mirrorInit cut pw z1 (hz0 z1 4 h1) len (by simpa using hshape len hl')
+            (hcut len hl' z1 (by simp)) (hpw len hl' z1 (by simp)) (hP len hl' z1 (by simp)) s)
+      (fun q => im.getD q 0)
+      (by rw [hs]; intro pos hpos; rw [hg pos hpos, lineFilterL_single]; norm_num)
+      shifts zooms p js (by rw [hs]; exact hl) (by rw [hs]; exact hc)
+    rw [hs] at this
+    exact this
+  · have := C18_interpolation_property_border_order4_5 h m cval 4 z1 z2 l1 l2 384
+      (Or.inl ⟨rfl, hsum, hprod, rfl⟩) h1 h2 hz1 hz2 (iniCode cut pw)
+      (splineFilterP (filterLineP 384 [z1, z2] (iniCode cut pw)) im)
+      (by rw [hs]; intro len hl'; simpa using hshape len hl')
+      (by rw [hs]; intro len hl' z hz s
+          have hlen : 2 ≤ len := by have := hshape len hl'; simp at this; omega
+          rcases hz with rfl | rfl
+          · exact iniCode_mirrorInit cut pw z (hz0 z l1 h1) len hlen
+              (hcut len hl' z (by simp)) (hpw len hl' z (by simp)) (hP len hl' z (by simp)) s
+          · exact iniCode_mirrorInit cut pw z (hz0 z l2 h2) len hlen
+              (hcut len hl' z (by simp)) (hpw len hl' z (by simp)) (hP len hl' z (by simp)) s)
+      (fun q => im.getD q 0)
+      (by rw [hs]; intro pos hpos; rw [hg pos hpos])
+      shifts zooms p js (by rw [hs]; exact hl) (by rw [hs]; exact hc)
+    rw [hs] at this
+    exact this
+  · have := C18_interpolation_property_border_order4_5 h m cval 5 z1 z2 l1 l2 120
+      (Or.inr ⟨rfl, hsum, hprod, rfl⟩) h1 h2 hz1 hz2 (iniCode cut pw)
+      (splineFilterP (filterLineP 120 [z1, z2] (iniCode cut pw)) im)
+      (by rw [hs]; intro len hl'; simpa using hshape len hl')
+      (by rw [hs]; intro len hl' z hz s
+          have hlen : 2 ≤ len := by have := hshape len hl'; simp at this; omega
+          rcases hz with rfl | rfl
+          · exact iniCode_mirrorInit cut pw z (hz0 z l1 h1) len hlen
+              (hcut len hl' z (by simp)) (hpw len hl' z (by simp)) (hP len hl' z (by simp)) s
+          · exact iniCode_mirrorInit cut pw z (hz0 z l2 h2) len hlen
+              (hcut len hl' z (by simp)) (hpw len hl' z (by simp)) (hP len hl' z (by simp)) s)
+      (fun q => im.getD q 0)
+      (by rw [hs]; intro pos hpos; rw [hg pos hpos])
+      shifts zooms p js (by rw [hs]; exact hl) (by rw [hs]; exact hc)
+    rw [hs] at this
+    exact this
